@@ -253,9 +253,13 @@ type Method struct {
 	NoSecurity       bool          `json:"no_security,omitempty"`
 	// SecurityAttrs: payload attribute name per scheme credential, e.g.
 	// {"scheme":"jwt","kind":"token","attr":"token"}
-	Creds []Cred        `json:"creds,omitempty"`
-	HTTP  *HTTPEndpoint `json:"http,omitempty"`
-	GRPC  *GRPCEndpoint `json:"grpc,omitempty"`
+	Creds []Cred `json:"creds,omitempty"`
+	// ImplicitAuth lists credential attributes left unmapped in the design: goa
+	// carries them in the Authorization header (the model lists that mapping in
+	// HTTP.Headers for the oracles, the lowering omits it).
+	ImplicitAuth []string      `json:"implicit_auth,omitempty"`
+	HTTP         *HTTPEndpoint `json:"http,omitempty"`
+	GRPC         *GRPCEndpoint `json:"grpc,omitempty"`
 }
 
 // Cred declares a credential attribute of the payload.
